@@ -49,6 +49,7 @@ real FlowConfigs) against a boring reference interpreter over the generator's ow
 from __future__ import annotations
 
 import functools
+import itertools
 import os
 import pickle
 import signal
@@ -59,89 +60,148 @@ PROP = "C14"
 
 VARS = ("c", "r")
 UNKNOWN_INTENT = "zz"
+TERMINAL = ("T", "BR", "CT")  # nothing may follow these in their block (it would be dead code)
 
 GRAMMARS = {
-    # name: (leaves, conds, while bounds)
-    "full": (
-        (("U",), ("B",), ("S", "c", 0), ("S", "c", 1), ("I", "c"), ("X",), ("D",)),
-        (("c", 0), ("c", 1), ("r", 1)),
-        (1, 2),
-    ),
-    "nest": (
-        (("B",), ("U",), ("I", "c")),
-        (("c", 1),),
-        (2,),
-    ),
+    # leaves: U user, B bot, S set, I increment, X execute, D do <subflow>, T stop, BR break, CT continue
+    "full": {
+        "leaves": (("U",), ("B",), ("S", "c", 0), ("S", "c", 1), ("I", "c"), ("X",), ("D",)),
+        "conds": (("c", 0), ("c", 1), ("r", 1)), "wk": (1, 2), "when": 0,
+    },
+    "nest": {
+        "leaves": (("B",), ("U",), ("I", "c")),
+        "conds": (("c", 1),), "wk": (2,), "when": 0,
+    },
+    # control statements: when / else when, stop, break, continue
+    "ctl": {
+        "leaves": (("B",), ("U",), ("I", "c"), ("T",), ("BR",), ("CT",)),
+        "conds": (("c", 1),), "wk": (2,), "when": 2,
+    },
+    # nested subflow calls: f1 calls s1, s1 calls s2
+    "nsub": {
+        "leaves": (("B",), ("U",), ("S", "c", 1), ("D",)),
+        "conds": (("c", 0), ("c", 1)), "wk": (), "when": 0,
+    },
 }
 
 F2_VARIANTS = {
     "simple": (("U",), ("B",)),
     "two-turn-set": (("U",), ("S", "c", 1), ("B",), ("U",), ("B",)),
 }
+CALLS = {"f1": "s1", "s1": "s2", "s2": None, "f2": None}  # which subflow a `do` in this flow calls
 
 
 # ------------------------------------------------------------------ generator (SmallCheck style)
 @functools.lru_cache(None)
-def blocks(n, g, allow_do, allow_while):
-    """all blocks (tuples of statements) with exactly n statement nodes over grammar g"""
+def blocks(n, g, do, wh, loop):
+    """all blocks (tuples of statements) with exactly n statement nodes over grammar g
+    (do: `do` allowed, wh: `while` allowed, loop: lexically inside a while body)"""
     if n == 0:
         return ((),)
     out = []
     for first in range(1, n + 1):
-        for st in stmts(first, g, allow_do, allow_while):
-            for rest in blocks(n - first, g, allow_do, allow_while):
+        for st in stmts(first, g, do, wh, loop):
+            if st[0] in TERMINAL and first < n:
+                continue
+            for rest in blocks(n - first, g, do, wh, loop):
                 out.append((st,) + rest)
     return tuple(out)
 
 
+def _compositions(n, parts, least):
+    if parts == 1:
+        if n >= least:
+            yield (n,)
+        return
+    for a in range(least, n - least * (parts - 1) + 1):
+        for rest in _compositions(n - a, parts - 1, least):
+            yield (a,) + rest
+
+
 @functools.lru_cache(None)
-def stmts(n, g, allow_do, allow_while):
-    leaves, conds, wk = GRAMMARS[g]
+def stmts(n, g, do, wh, loop):
+    G = GRAMMARS[g]
     out = []
     if n == 1:
-        for lf in leaves:
-            if lf[0] == "D" and not allow_do:
+        for lf in G["leaves"]:
+            if lf[0] == "D" and not do:
+                continue
+            if lf[0] in ("BR", "CT") and not loop:
                 continue
             out.append(lf)
         return tuple(out)
     for a in range(1, n):  # if: 1 + then(a >= 1) + else(b >= 0)
         b = n - 1 - a
-        for cond in conds:
-            for th in blocks(a, g, allow_do, allow_while):
-                for el in blocks(b, g, allow_do, allow_while):
+        for cond in G["conds"]:
+            for th in blocks(a, g, do, wh, loop):
+                for el in blocks(b, g, do, wh, loop):
                     out.append(("IF", cond, th, el if b else None))
-    if allow_while:
-        for k in wk:
-            for body in blocks(n - 1, g, allow_do, allow_while):
+    if wh:
+        for k in G["wk"]:
+            for body in blocks(n - 1, g, do, wh, True):
                 out.append(("WH", ("c", k), body))
+    for nb in range(1, G["when"] + 1):  # when / else when: every branch = its `user` head + a non-empty body
+        for sizes in _compositions(n, nb, 2):
+            for bodies in itertools.product(*[blocks(sz - 1, g, do, wh, loop) for sz in sizes]):
+                out.append(("WN", tuple(bodies)))
     return tuple(out)
 
 
-def has(block, kind, top_only=False):
+def has(block, kind, top_only=False, into_loops=True):
     for st in block:
         if st[0] == kind:
             return True
         if not top_only:
-            if st[0] == "IF" and (has(st[2], kind) or (st[3] and has(st[3], kind))):
+            if st[0] == "IF" and (has(st[2], kind, False, into_loops) or (st[3] and has(st[3], kind, False, into_loops))):
                 return True
-            if st[0] == "WH" and has(st[2], kind):
+            if st[0] == "WH" and into_loops and has(st[2], kind, False, into_loops):
+                return True
+            if st[0] == "WN" and any(has(b, kind, False, into_loops) for b in st[1]):
                 return True
     return False
 
 
 def reads_r(block):
-    for st in block:
+    for st in block or ():
         if st[0] == "IF":
-            if st[1][0] == "r" or reads_r(st[2]) or (st[3] and reads_r(st[3])):
+            if st[1][0] == "r" or reads_r(st[2]) or reads_r(st[3]):
                 return True
         elif st[0] == "WH" and reads_r(st[2]):
+            return True
+        elif st[0] == "WN" and any(reads_r(b[1] if isinstance(b, list) else b) for b in st[1]):
             return True
     return False
 
 
-def well_formed(block, defined, sub):
+def _sets_counter(block, subs, target):
+    """does the block (or a subflow it calls) assign a constant to the counter"""
+    if has(block, "S"):
+        return True
+    if target and subs.get(target) is not None and has(block, "D"):
+        return _sets_counter(subs[target], subs, CALLS[target])
+    return False
+
+
+def _loop_terminates(body, subs, target):
+    """every iteration waits for the user or makes progress on the counter before it can `continue`"""
+    first_ok = None
+    no_set = not _sets_counter(body, subs, target)
+    for i, st in enumerate(body):
+        if st[0] in ("U", "WN") or (st[0] == "I" and no_set):
+            first_ok = i
+            break
+    if first_ok is None:
+        return False
+    for i, st in enumerate(body):
+        if has((st,), "CT", False, False) and i <= first_ok:
+            return False
+    return True
+
+
+def well_formed(block, defined, subs, target):
     """definite assignment + loop termination.  Returns the set of definitely assigned variables
-    after the block, or None when the block is not an ordinary terminating structured program."""
+    after the block, or None when the block is not an ordinary terminating structured program.
+    subs: subflow name -> block, target: the subflow a `do` in this block calls"""
     d = set(defined)
     for st in block:
         k = st[0]
@@ -151,65 +211,96 @@ def well_formed(block, defined, sub):
             if st[1] not in d:
                 return None
         elif k == "X":
+            if "c" not in d:  # the action is called with p=$c
+                return None
             d.add("r")
         elif k == "D":
-            if sub is None:
+            if not target or subs.get(target) is None:
                 return None
-            d2 = well_formed(sub, d, None)
+            d2 = well_formed(subs[target], d, subs, CALLS[target])
             if d2 is None:
                 return None
             d = d2
         elif k == "IF":
             if st[1][0] not in d:
                 return None
-            a = well_formed(st[2], d, sub)
+            a = well_formed(st[2], d, subs, target)
             if a is None:
                 return None
             if st[3]:
-                b = well_formed(st[3], d, sub)
+                b = well_formed(st[3], d, subs, target)
                 if b is None:
                     return None
                 d = a & b
         elif k == "WH":
             if st[1][0] not in d:
                 return None
-            body = st[2]
-            top_u = has(body, "U", True)
-            top_i = has(body, "I", True)
-            any_s = has(body, "S") or (has(body, "D") and sub is not None and has(sub, "S"))
-            if not (top_u or (top_i and not any_s)):
+            if not _loop_terminates(st[2], subs, target):
                 return None
-            if well_formed(body, d, sub) is None:
+            if well_formed(st[2], d, subs, target) is None:
                 return None
+        elif k == "WN":
+            res = None
+            for body in st[1]:
+                a = well_formed(body, d, subs, target)
+                if a is None:
+                    return None
+                res = a if res is None else res & a
+            d = res
     return d
 
 
-def programs(g, total, sub_sizes, with_while_in_sub=False):
-    """all well-formed programs of grammar g with main size + subflow size == total"""
+def programs(g, total, sub_sizes=(), sub2_sizes=()):
+    """all well-formed programs (main, (s1[, s2])) of grammar g whose sizes add up to `total`.
+    Without subflow sizes: programs without subflows.  With sub2_sizes: s1 must call s2."""
     out = []
-    for b in blocks(total, g, False, True):
-        if well_formed(b, {"c"}, None) is not None:
-            out.append((b, None))
-    if any(lf[0] == "D" for lf in GRAMMARS[g][0]):
+    has_do = any(lf[0] == "D" for lf in GRAMMARS[g]["leaves"])
+    if not sub2_sizes:
+        for b in blocks(total, g, False, True, False):
+            if well_formed(b, {"c"}, {}, None) is not None:
+                out.append((b, ()))
+    if not has_do:
+        return out
+    if not sub2_sizes:
         for ns in sub_sizes:
             nm = total - ns
             if nm < 1:
                 continue
-            for sub in blocks(ns, g, False, with_while_in_sub):
-                for b in blocks(nm, g, True, True):
-                    if not has(b, "D"):
+            for sub in blocks(ns, g, False, False, False):
+                for b in blocks(nm, g, True, True, False):
+                    if has(b, "D") and well_formed(b, {"c"}, {"s1": sub}, "s1") is not None:
+                        out.append((b, (sub,)))
+        return out
+    for n1 in sub_sizes:
+        for n2 in sub2_sizes:
+            nm = total - n1 - n2
+            if nm < 1:
+                continue
+            for s2 in blocks(n2, g, False, False, False):
+                for s1 in blocks(n1, g, True, False, False):
+                    if not has(s1, "D"):
                         continue
-                    if well_formed(b, {"c"}, sub) is not None:
-                        out.append((b, sub))
+                    for b in blocks(nm, g, True, True, False):
+                        if has(b, "D") and well_formed(b, {"c"}, {"s1": s1, "s2": s2}, "s1") is not None:
+                            out.append((b, (s1, s2)))
     return out
 
 
 # ------------------------------------------------------------------ labelling + printing
-def label(main, sub, f2):
+NAMES = {
+    "f1": {"u": "u", "m": "m", "a": "act"},
+    "s1": {"u": "su", "m": "sm", "a": "sact"},
+    "s2": {"u": "tu", "m": "tm", "a": "tact"},
+    "f2": {"u": "j", "m": "o", "a": "oact"},
+}
+
+
+def label(main, subs, f2):
     """give every user/bot/execute statement its own name and every statement the path of the
     constructs around it.  Result is plain lists (json round-trips)."""
 
-    def lab(block, path, pfx, cnt):
+    def lab(block, path, fid, cnt):
+        pfx = NAMES[fid]
         out = []
         for st in block:
             k = st[0]
@@ -221,26 +312,34 @@ def label(main, sub, f2):
                 out.append(["B", f"{pfx['m']}{cnt['m']}", path])
             elif k == "X":
                 cnt["a"] += 1
-                out.append(["X", f"{pfx['a']}{cnt['a']}", "r", path])
+                out.append(["X", f"{pfx['a']}{cnt['a']}", "r", "c", path])
             elif k == "S":
                 out.append(["S", st[1], st[2], path])
             elif k == "I":
                 out.append(["I", st[1], path])
             elif k == "D":
-                out.append(["D", "s1", path])
+                out.append(["D", CALLS[fid], path])
+            elif k in TERMINAL:
+                out.append([k, path])
             elif k == "IF":
-                out.append(["IF", list(st[1]), lab(st[2], path + ">IF.then", pfx, cnt),
-                            lab(st[3], path + ">IF.else", pfx, cnt) if st[3] else None, path])
+                out.append(["IF", list(st[1]), lab(st[2], path + ">IF.then", fid, cnt),
+                            lab(st[3], path + ">IF.else", fid, cnt) if st[3] else None, path])
             elif k == "WH":
-                out.append(["WH", list(st[1]), lab(st[2], path + ">WH", pfx, cnt), path])
+                out.append(["WH", list(st[1]), lab(st[2], path + ">WH", fid, cnt), path])
+            elif k == "WN":
+                brs = []
+                for body in st[1]:
+                    name = f"{pfx['u']}{cnt['u']}"
+                    cnt["u"] += 1
+                    brs.append([name, lab(body, path + ">WN", fid, cnt)])
+                out.append(["WN", brs, path])
         return out
 
-    P = {"flows": {}, "sub": None}
-    P["flows"]["f1"] = lab((("U",), ("S", "c", 0)) + tuple(main), "f1", {"u": "u", "m": "m", "a": "act"},
-                           {"u": 0, "m": 0, "a": 0})
-    if sub is not None:
-        P["sub"] = lab(sub, "s1", {"u": "su", "m": "sm", "a": "sact"}, {"u": 1, "m": 0, "a": 0})
-    P["flows"]["f2"] = lab(f2, "f2", {"u": "j", "m": "o", "a": "oact"}, {"u": 0, "m": 0, "a": 0})
+    P = {"flows": {}, "subs": {}}
+    P["flows"]["f1"] = lab((("U",), ("S", "c", 0)) + tuple(main), "f1", "f1", {"u": 0, "m": 0, "a": 0})
+    for name, sub in zip(("s1", "s2"), subs):
+        P["subs"][name] = lab(sub, name, name, {"u": 1, "m": 0, "a": 0})
+    P["flows"]["f2"] = lab(f2, "f2", "f2", {"u": 0, "m": 0, "a": 0})
     return P
 
 
@@ -253,13 +352,19 @@ def _emit(block, ind, lines):
         elif k == "B":
             lines.append(f"{pad}bot {st[1]}")
         elif k == "X":
-            lines.append(f"{pad}${st[2]} = execute {st[1]}")
+            lines.append(f"{pad}${st[2]} = execute {st[1]}(p=${st[3]})")
         elif k == "S":
             lines.append(f"{pad}${st[1]} = {st[2]}")
         elif k == "I":
             lines.append(f"{pad}${st[1]} = ${st[1]} + 1")
         elif k == "D":
             lines.append(f"{pad}do {st[1]}")
+        elif k == "T":
+            lines.append(f"{pad}stop")
+        elif k == "BR":
+            lines.append(f"{pad}break")
+        elif k == "CT":
+            lines.append(f"{pad}continue")
         elif k == "IF":
             lines.append(f"{pad}if ${st[1][0]} == {st[1][1]}")
             _emit(st[2], ind + 1, lines)
@@ -269,17 +374,21 @@ def _emit(block, ind, lines):
         elif k == "WH":
             lines.append(f"{pad}while ${st[1][0]} < {st[1][1]}")
             _emit(st[2], ind + 1, lines)
+        elif k == "WN":
+            for bi, (name, body) in enumerate(st[1]):
+                lines.append(f"{pad}{'when' if bi == 0 else 'else when'} user {name}")
+                _emit(body, ind + 1, lines)
 
 
-def to_colang(P, order=("f1", "s1", "f2")):
+def to_colang(P, order=("f1", "s1", "s2", "f2")):
     chunks = []
     for name in order:
         lines = []
-        if name == "s1":
-            if P["sub"] is None:
+        if name in ("s1", "s2"):
+            if P["subs"].get(name) is None:
                 continue
-            lines.append("define subflow s1")
-            _emit(P["sub"], 1, lines)
+            lines.append(f"define subflow {name}")
+            _emit(P["subs"][name], 1, lines)
         else:
             lines.append(f"define flow {name}")
             _emit(P["flows"][name], 1, lines)
@@ -291,14 +400,17 @@ def prog_size(P):
     def sz(b):
         n = 0
         for st in b or ():
-            n += 1
             if st[0] == "IF":
-                n += sz(st[2]) + sz(st[3])
+                n += 1 + sz(st[2]) + sz(st[3])
             elif st[0] == "WH":
-                n += sz(st[2])
+                n += 1 + sz(st[2])
+            elif st[0] == "WN":
+                n += sum(1 + sz(body) for _, body in st[1])
+            else:
+                n += 1
         return n
 
-    return sz(P["flows"]["f1"]) - 2 + sz(P["sub"])
+    return sz(P["flows"]["f1"]) - 2 + sum(sz(b) for b in P["subs"].values())
 
 
 # ------------------------------------------------------------------ reference interpreter
@@ -306,19 +418,64 @@ class RefFuel(Exception):
     pass
 
 
-def _exec(block, ctx, P, feats, fuel):
-    """ordinary structured-program semantics; yields at user / bot / execute statements"""
+class _Break(Exception):
+    pass
+
+
+class _Continue(Exception):
+    pass
+
+
+class _StopFlow(Exception):
+    pass
+
+
+class _Cell:
+    """features of the current advance (a mutable cell: the generators keep a reference to it)"""
+    __slots__ = ("s",)
+
+    def __init__(self):
+        self.s = set()
+
+    def add(self, x):
+        self.s.add(x)
+
+
+def _exec(block, ctx, P, feats, fuel, frame):
+    """ordinary structured-program semantics; yields at user / when / bot / execute / stop statements.
+    frame: {"entry": True until this (sub)flow activation has yielded once} - only used to name the
+    input class 'subflow called by a subflow that has not done anything yet'."""
+    prev = None
     for st in block:
         fuel[0] -= 1
         if fuel[0] < 0:
             raise RefFuel()
         k = st[0]
+        if k == "WN" and prev == "WN":
+            feats.add("adjacent-when")
+        prev = k
         if k == "U":
+            frame["entry"] = False
             yield ("user", st[1], st[-1])
+        elif k == "WN":
+            frame["entry"] = False
+            names = tuple(name for name, _ in st[1])
+            got = yield ("user", names, st[-1])
+            bi = names.index(got)
+            feats.add("when-first" if bi == 0 else "when-else")
+            yield from _exec(st[1][bi][1], ctx, P, feats, fuel, frame)
+            if bi < len(names) - 1:
+                feats.add("skip-else-when")
         elif k == "B":
+            frame["entry"] = False
             yield ("bot", st[1], st[-1])
+        elif k == "T":
+            frame["entry"] = False
+            yield ("bot", "stop", st[-1])
+            raise _StopFlow()
         elif k == "X":
-            res = yield ("exec", st[1], st[-1], st[2])
+            frame["entry"] = False
+            res = yield ("exec", st[1], st[-1], st[2], ctx.get(st[3]))
             ctx[st[2]] = res
             feats.add("exec-result")
         elif k == "S":
@@ -327,31 +484,50 @@ def _exec(block, ctx, P, feats, fuel):
         elif k == "I":
             ctx[st[1]] = ctx[st[1]] + 1
             feats.add("inc")
+        elif k == "BR":
+            raise _Break()
+        elif k == "CT":
+            raise _Continue()
         elif k == "IF":
             var, const = st[1]
             if ctx.get(var) == const:
                 feats.add("if-then")
-                yield from _exec(st[2], ctx, P, feats, fuel)
+                yield from _exec(st[2], ctx, P, feats, fuel, frame)
                 if st[3]:
                     feats.add("skip-else")
             elif st[3]:
                 feats.add("if-else")
-                yield from _exec(st[3], ctx, P, feats, fuel)
+                yield from _exec(st[3], ctx, P, feats, fuel, frame)
             else:
                 feats.add("if-skip")
         elif k == "WH":
             var, kk = st[1]
+            broke = False
             while ctx[var] < kk:
                 fuel[0] -= 1
                 if fuel[0] < 0:
                     raise RefFuel()
                 feats.add("while-iter")
-                yield from _exec(st[2], ctx, P, feats, fuel)
+                try:
+                    yield from _exec(st[2], ctx, P, feats, fuel, frame)
+                except _Break:
+                    feats.add("break")
+                    broke = True
+                    break
+                except _Continue:
+                    feats.add("continue")
+                    continue
                 feats.add("while-back")
-            feats.add("while-exit")
+            if not broke:
+                feats.add("while-exit")
         elif k == "D":
             feats.add("sub-call")
-            yield from _exec(P["sub"], ctx, P, feats, fuel)
+            if frame.get("sub") and frame["entry"]:
+                feats.add("nested-call-at-subflow-entry")
+            inner = {"entry": True, "sub": True}
+            yield from _exec(P["subs"][st[1]], ctx, P, feats, fuel, inner)
+            if not inner["entry"]:
+                frame["entry"] = False
             feats.add("sub-return")
 
 
@@ -368,21 +544,24 @@ def _intent_table(P):
                 walk(st[3], owner, False)
             elif st[0] == "WH":
                 walk(st[2], owner, False)
+            elif st[0] == "WN":
+                for name, body in st[1]:
+                    tab[name] = (owner, False)
+                    walk(body, owner, False)
 
     for fid, b in P["flows"].items():
         walk(b, fid, True)
-    walk(P["sub"], "s1", False)
+    for sid, b in P["subs"].items():
+        walk(b, sid, False)
     return tab
 
 
-class _Cell:
-    __slots__ = ("s",)
+def _waits_for(pend, intent):
+    return pend[0] == "user" and (intent == pend[1] if isinstance(pend[1], str) else intent in pend[1])
 
-    def __init__(self):
-        self.s = set()
 
-    def add(self, x):
-        self.s.add(x)
+def _as_list(x):
+    return [x] if isinstance(x, str) else list(x)
 
 
 def ref_run(P, ahist, tab=None):
@@ -407,6 +586,9 @@ def ref_run(P, ahist, tab=None):
         except StopIteration:
             cell.add("flow-end")
             cur = None
+        except _StopFlow:
+            cell.add("stopped")
+            cur = None
 
     after_instant = None
     for ev in ahist:
@@ -418,8 +600,8 @@ def ref_run(P, ahist, tab=None):
         from_path = cur["pend"][2] if cur else "-"
         if ev[0] == "user":
             i = ev[1]
-            if cur and cur["pend"][0] == "user" and cur["pend"][1] == i:
-                advance(None)
+            if cur and _waits_for(cur["pend"], i):
+                advance(i)
             else:
                 if cur:
                     susp[cur["flow"]] = cur["pend"][1]
@@ -430,10 +612,10 @@ def ref_run(P, ahist, tab=None):
                     leave = "unknown-intent"
                 elif own[1] and own[0] not in susp:
                     leave = "start:" + own[0]
-                    gen = _exec(P["flows"][own[0]], ctx, P, cell, fuel)
+                    gen = _exec(P["flows"][own[0]], ctx, P, cell, fuel, {"entry": True})
                     cur = {"flow": own[0], "gen": gen, "pend": next(gen)}
-                    advance(None)
-                    if cur is None and instant is None:
+                    advance(i)
+                    if cur is None and instant is None and "stopped" not in cell.s:
                         instant = own[0]
                 else:
                     status = "unspec"
@@ -448,6 +630,7 @@ def ref_run(P, ahist, tab=None):
         cum |= cell.s
     pend = cur["pend"] if cur else None
     expect = None
+    param = None
     if pend is None:
         to_path = "end"
     elif pend[0] == "bot":
@@ -455,19 +638,21 @@ def ref_run(P, ahist, tab=None):
         to_path = pend[2]
     elif pend[0] == "exec":
         expect = ("exec", pend[1], pend[3])
+        param = pend[4]
         to_path = pend[2]
     else:
         to_path = "wait@" + pend[2]
     return {
         "status": status,
         "expect": expect,
+        "param": param,
         "ctx": dict(ctx),
         "last": set(cell.s),
         "cum": cum,
         "leave": leave,
-        "pending_user": pend[1] if pend and pend[0] == "user" else None,
+        "pending_user": _as_list(pend[1]) if pend and pend[0] == "user" else [],
         "cur_flow": cur["flow"] if cur else None,
-        "susp": dict(susp),
+        "susp": {k: _as_list(v) for k, v in susp.items()},
         "from": from_path,
         "to": to_path,
         "after_instant": after_instant,
@@ -477,49 +662,82 @@ def ref_run(P, ahist, tab=None):
 # ------------------------------------------------------------------ the real implementation
 _LIB = {}
 YAML = "models: []\n"
-DROP_KEYS = ("uid", "event_created_at", "source_uid", "action_uid")
+DROP_KEYS = ("uid", "event_created_at", "source_uid", "action_uid", "action_started_at", "action_finished_at",
+             "action_updated_at")
+STUB = {"result": 1, "script": None, "calls": []}  # what the stub action returns / was called with
 
 
 class ImplHang(BaseException):
     pass
 
 
+async def _stub_action(p=None):
+    STUB["calls"].append(p)
+    if STUB["script"]:
+        return STUB["script"].popleft()
+    return STUB["result"]
+
+
 def lib():
     if not _LIB:
         from nemoguardrails import RailsConfig
+        from nemoguardrails.actions.action_dispatcher import ActionDispatcher
         from nemoguardrails.colang.v1_0.runtime import flows as F
         from nemoguardrails.colang.v1_0.runtime.runtime import RuntimeV1_0
         from nemoguardrails.utils import new_event_dict
 
-        _LIB.update(RailsConfig=RailsConfig, F=F, Runtime=RuntimeV1_0, new_event_dict=new_event_dict)
+        disp = ActionDispatcher(load_all_actions=False)
+        for pfx in NAMES.values():
+            for n in range(1, 12):
+                disp.register_action(_stub_action, f"{pfx['a']}{n}")
+        _LIB.update(RailsConfig=RailsConfig, F=F, Runtime=RuntimeV1_0, new_event_dict=new_event_dict,
+                    dispatcher=disp)
     return _LIB
 
 
-class _Host:
-    """stands in for the runtime object in RuntimeV1_0._load_flow_config (which only touches
-    self.flow_configs) - LLMRails itself is not needed to build the flow configs"""
+def make_runtime(cfg, flows=None):
+    """a real RuntimeV1_0 object without the expensive constructor (action loading, prompt renderer):
+    the attributes generate_events / _compute_next_steps / _process_start_action use are set by hand,
+    the flow configs are built by the runtime's own _init_flow_configs / _load_flow_config"""
+    rt = object.__new__(_LIB["Runtime"])
+    rt.config = cfg
+    rt.verbose = False
+    rt.action_dispatcher = _LIB["dispatcher"]
+    rt.registered_action_params = {}
+    rt.llm_task_manager = None
+    rt.watchers = []
+    rt.max_events = 500
+    if flows is None:
+        rt._init_flow_configs()
+    else:
+        rt.flow_configs = {}
+        for f in flows:
+            rt._load_flow_config(f)
+    return rt
 
 
-def flow_configs_of(flows):
-    h = _Host()
-    h.flow_configs = {}
-    for f in flows:
-        _LIB["Runtime"]._load_flow_config(h, f)
-    return h.flow_configs
+def _run(coro):
+    """the runtime's coroutines never suspend here (stub actions, no LLM): run them by hand"""
+    try:
+        coro.send(None)
+    except StopIteration as e:
+        return e.value
+    coro.close()
+    raise RuntimeError("a runtime coroutine suspended")
 
 
 def _alarm(signum, frame):
     raise ImplHang()
 
 
-def decide(hist, cfgs, rcfg, plog):
-    """one call of the real decision function (guarded by a 1 s CPU-time timer that keeps firing: a wrong
+def guarded(fn):
+    """one call into the real implementation (guarded by a 1 s CPU-time timer that keeps firing: a wrong
     jump offset can make slide() spin forever, and one alarm may be swallowed, e.g. inside a __del__)"""
     signal.signal(signal.SIGVTALRM, _alarm)
     try:
         try:
             signal.setitimer(signal.ITIMER_VIRTUAL, 1.0, 0.1)
-            return ("ok", _LIB["F"].compute_next_steps(hist, cfgs, rcfg, plog))
+            return ("ok", fn())
         finally:
             signal.setitimer(signal.ITIMER_VIRTUAL, 0)
     except ImplHang:
@@ -556,7 +774,7 @@ def show_step(s):
     if s is None:
         return "nothing (wait for the user)"
     if s[0] == "bot":
-        return f"bot {s[1]}"
+        return "stop" if s[1] == "stop" else f"bot {s[1]}"
     return f"${s[2]} = execute {s[1]}"
 
 
@@ -571,9 +789,9 @@ def kind_of(got, expect):
 
 
 class World:
-    """one program: source, two independent parses, the long-lived (used) flow configs"""
+    """one program: source, two independent parses, the long-lived (used) runtime object"""
 
-    def __init__(self, P, order=("f1", "s1", "f2")):
+    def __init__(self, P, order=("f1", "s1", "s2", "f2")):
         L = lib()
         self.P = P
         self.src = to_colang(P, order)
@@ -581,57 +799,53 @@ class World:
         self.cfg_fresh = L["RailsConfig"].from_content(colang_content=self.src, yaml_content=YAML)
         self.parse_deterministic = self.cfg_used.flows == self.cfg_fresh.flows
         self.pristine = pickle.dumps(self.cfg_fresh.flows, pickle.HIGHEST_PROTOCOL)
-        self.used = flow_configs_of(self.cfg_used.flows)
+        self.rt_used = make_runtime(self.cfg_used)
         self.plog = []
         self.tab = _intent_table(P)
-        self.results = (0, 1) if (reads_r(P["flows"]["f1"]) or reads_r(P["sub"] or ())
-                                  or reads_r(P["flows"]["f2"])) else (1,)
+        blocks_ = list(P["flows"].values()) + list(P["subs"].values())
+        self.results = (0, 1) if any(reads_r(b) for b in blocks_) else (1,)
         self.calls = 0
-        self.trace = []  # (script, k) of every call made on the used configs, in order
+        self.trace = []  # (script, k) of every decision call made on the used runtime, in order
 
     def fresh(self):
-        return flow_configs_of(pickle.loads(self.pristine))
+        return make_runtime(self.cfg_fresh, pickle.loads(self.pristine))
 
     def eval_used(self, hist, nid=None):
         self.calls += 1
         self.trace.append(nid)
         del self.plog[:]
-        return decide(hist, self.used, self.cfg_used, self.plog)
+        return guarded(lambda: _run(self.rt_used._compute_next_steps(hist, processing_log=self.plog)))
 
     def eval_fresh(self, hist):
         self.calls += 1
-        return decide(hist, self.fresh(), self.cfg_fresh, [])
+        rt = self.fresh()
+        return guarded(lambda: _run(rt._compute_next_steps(hist, processing_log=[])))
 
-    # --- what RuntimeV1_0 appends around the decision function
+    # --- what RuntimeV1_0.generate_events does around the decision function
     def user_events(self, intent, first):
         ev = [] if first else [_LIB["new_event_dict"]("Listen")]
         ev.append(_LIB["new_event_dict"]("UserIntent", intent=intent))
         return ev
 
-    def action_events(self, hist, result):
-        """_process_start_action for a stub action returning `result`"""
-        F = _LIB["F"]
-        start = hist[-1]
-        key = start["action_result_key"]
-        out = []
-        if key:
-            context = F.compute_context(hist)
-            if context.get(key) != result:
-                out.append(_LIB["new_event_dict"]("ContextUpdate", data={key: result}))
-        out.append(_LIB["new_event_dict"](
-            "InternalSystemActionFinished",
-            action_uid=start["action_uid"],
-            action_name=start["action_name"],
-            action_params=start["action_params"],
-            action_result_key=key,
-            status="success",
-            is_success=True,
-            failure_reason="success",
-            return_value=result,
-            events=[],
-            is_system_action=False,
-        ))
-        return out
+    def action(self, rt, hist, result):
+        """the real _process_start_action for the stub action returning `result`
+        -> (("ok", events) | ("exc", text), argument the action was called with)"""
+        STUB["result"] = result
+        STUB["script"] = None
+        del STUB["calls"][:]
+        self.calls += 1
+        res = guarded(lambda: _run(rt._process_start_action(hist)))
+        return res, (STUB["calls"][-1] if STUB["calls"] else "<not called>")
+
+    def whole_turn(self, hist_at_user, results):
+        """RuntimeV1_0.generate_events on the used runtime for one user turn"""
+        STUB["script"] = deque(results)
+        del STUB["calls"][:]
+        self.calls += 1
+        try:
+            return guarded(lambda: _run(self.rt_used.generate_events(hist_at_user, processing_log=[])))
+        finally:
+            STUB["script"] = None
 
     def visible_context(self, hist):
         c = _LIB["F"].compute_context(hist)
@@ -653,6 +867,11 @@ def check_node(W, ahist, hist, r, k=0):
     if r.get("after_instant"):
         return _check_after_instant(W, ahist, hist, r, ru, rf)
     where = f"{_short(r['from'])}->{_short(r['to'])}" if r["status"] == "strict" else "left-flow-involved"
+    cls = None  # input classes with a signature of their own
+    if "adjacent-when" in r["cum"]:
+        cls = WHEN_SIG
+    elif "nested-call-at-subflow-entry" in r["last"]:
+        cls = NESTED_SIG
     if nu != nf:
         du = decode(ru[1])[1] if ru[0] == "ok" else ("exception",)
         df = decode(rf[1])[1] if rf[0] == "ok" else ("exception",)
@@ -665,7 +884,7 @@ def check_node(W, ahist, hist, r, k=0):
         return None, viol, None
     if ru[0] != "ok":
         if r["status"] == "strict":
-            viol.append(("exception", f"exception:{where}:{feats}",
+            viol.append(("exception", f"{cls}:exception" if cls else f"exception:{where}:{feats}",
                          f"expected {show_step(r['expect'])}, compute_next_steps raised {ru[1]}"))
         return None, viol, None
     steps = ru[1]
@@ -677,7 +896,9 @@ def check_node(W, ahist, hist, r, k=0):
         return None, viol, step
     if step != r["expect"]:
         k = kind_of(step, r["expect"])
-        if r["leave"] and r["leave"] == "unknown-intent":
+        if cls:
+            sig = f"{cls}:{'spurious-step' if k.startswith('spurious') else k}"
+        elif r["leave"] and r["leave"] == "unknown-intent":
             sig = f"unknown-intent:{k}:{_short(r['from'])}"
         else:
             sig = f"step:{where}:{feats}:{k}"
@@ -687,7 +908,7 @@ def check_node(W, ahist, hist, r, k=0):
     want = {v: r["ctx"].get(v) for v in VARS}
     if vis != want:
         diff = [v for v in VARS if vis[v] != want[v]]
-        viol.append(("context", f"context:${'+$'.join(diff)}:{where}:{feats}",
+        viol.append(("context", f"{cls}:context" if cls else f"context:${'+$'.join(diff)}:{where}:{feats}",
                      f"step {show_step(step)} as expected, but the context after it is {vis}, "
                      f"structured-program value {want}"))
         return None, viol, step
@@ -695,6 +916,11 @@ def check_node(W, ahist, hist, r, k=0):
 
 
 INSTANT_SIG = "after-an-episode-that-ended-within-its-start-event"
+# input class: a subflow whose first executed statement is `do <another subflow>` (nothing of it has
+# been decided or waited for yet)
+NESTED_SIG = "nested-subflow-call-at-subflow-entry"
+# input class: a `when` block directly followed by another `when` block (not `else when`) was entered
+WHEN_SIG = "when-block-directly-after-when-block"
 
 
 def _check_after_instant(W, ahist, hist, r, ru, rf):
@@ -740,15 +966,15 @@ def _show_res(n):
 
 
 NONTRIVIAL = ("if-then", "if-else", "if-skip", "skip-else", "while-iter", "while-back", "while-exit",
-              "sub-call", "sub-return")
+              "sub-call", "sub-return", "when-first", "when-else", "skip-else-when", "break", "continue", "stopped")
 
 
 def explore(task):
     """BFS over all histories of one program within the bounds"""
-    idx, main, sub, f2name, opts = task
+    idx, main, subs, f2name, opts = task
     max_user, max_dev, seed = opts["max_user"], opts["max_dev"], opts.get("seed", 0)
-    P = label(main, sub, F2_VARIANTS[f2name])
-    order = ("f1", "s1", "f2") if seed % 2 == 0 else ("f2", "s1", "f1")
+    P = label(main, subs, F2_VARIANTS[f2name])
+    order = ("f1", "s1", "s2", "f2") if seed % 2 == 0 else ("f2", "s2", "s1", "f1")
     W = World(P, order)
     counts = {
         "programs": 1, "states": 0, "transitions": 0, "traces_validated_against_impl": 0,
@@ -756,6 +982,8 @@ def explore(task):
         "nontrivial_histories": 0, "user_points": 0, "action_points": 0,
         "decisions_bot": 0, "decisions_action": 0, "decisions_wait": 0,
         "leave_other_flow_checked": 0, "leave_unknown_intent_checked": 0,
+        "actions_executed_used_and_fresh": 0, "action_arguments_checked": 0,
+        "turns_compared_with_generate_events": 0,
         "reevaluated_after_all_calls": 0, "reference_states": 0, "max_history_len": 0,
         "parse_nondeterministic_programs": 0 if W.parse_deterministic else 1,
         "flow_configs_changed_by_use": 0, "violating_histories": 0,
@@ -787,14 +1015,15 @@ def explore(task):
 
     # node = (abstract history, concrete history, reference result, user turns, unexpected turns used,
     #         depth, terminal (a left flow is involved: finish this turn only), actions that returned 0,
-    #         k = decision rounds since the last user / action-result event)
+    #         k = decision rounds since the last user / action-result event,
+    #         index in the history of the UserIntent that opened the current turn)
     q = deque()
     r0 = ref_run(P, (), W.tab)
 
     def push_user_children(ahist, hist, r, n_user, dev, depth, zeros):
         cands = []
-        for i in [r["pending_user"], "u0", "j0", unk] + sorted(r["susp"].values()):
-            if i is not None and i not in cands:
+        for i in r["pending_user"] + ["u0", "j0", unk] + sorted(x for v in r["susp"].values() for x in v):
+            if i not in cands:
                 cands.append(i)
         if seed:
             cands = cands[seed % len(cands):] + cands[:seed % len(cands)]
@@ -803,7 +1032,7 @@ def explore(task):
             r2 = ref_run(P, ah2, W.tab)
             if r2["status"] == "unspec":
                 cost, terminal = 0, True
-            elif i == r["pending_user"]:
+            elif i in r["pending_user"]:
                 cost, terminal = 0, False
             elif i == "u0" and r["cur_flow"] is None and not r["susp"]:
                 cost, terminal = 0, False
@@ -811,11 +1040,12 @@ def explore(task):
                 cost, terminal = 1, False
             if dev + cost > max_dev:
                 continue
-            q.append((ah2, hist + W.user_events(i, not hist), r2, n_user + 1, dev + cost, depth + 1, terminal, zeros, 0))
+            h2 = hist + W.user_events(i, not hist)
+            q.append((ah2, h2, r2, n_user + 1, dev + cost, depth + 1, terminal, zeros, 0, len(h2)))
 
     push_user_children((), [], r0, 0, 0, 0, 0)
     while q:
-        ahist, hist, r, n_user, dev, depth, terminal, zeros, k = q.popleft()
+        ahist, hist, r, n_user, dev, depth, terminal, zeros, k, turn_at = q.popleft()
         counts["states"] += 1
         counts["traces_validated_against_impl"] += 1
         counts["max_history_len"] = max(counts["max_history_len"], len(hist))
@@ -835,7 +1065,8 @@ def explore(task):
                 counts["leave_unknown_intent_checked"] += 1
             elif r["leave"] and "left-flow" in r["last"]:
                 counts["leave_other_flow_checked"] += 1
-            refstates.add((r["cur_flow"], r["to"], tuple(sorted(r["ctx"].items())), tuple(sorted(r["susp"].items()))))
+            refstates.add((r["cur_flow"], r["to"], tuple(sorted(r["ctx"].items())),
+                           tuple(sorted((a, tuple(b)) for a, b in r["susp"].items()))))
         else:
             counts["left_flow_histories_second_clause_only"] += 1
         if steps is None or depth >= opts["max_depth"]:
@@ -851,8 +1082,24 @@ def explore(task):
                       "decided": [_ev_brief(e) for e in steps], "reference_expected": show_step(r["expect"]),
                       "constructs_exercised": sorted(r["cum"])}
         if not steps:
-            # Listen -> user point
+            # Listen -> user point.  A turn in which actions ran is also produced in one go by the real
+            # generate_events on the used runtime and compared with the events collected step by step.
             counts["user_points"] += 1
+            turn_results = []
+            for e in reversed(ahist):
+                if e[0] == "user":
+                    break
+                if e[0] == "done":
+                    turn_results.append(e[2])
+            if turn_results:
+                counts["turns_compared_with_generate_events"] += 1
+                whole = W.whole_turn(hist[:turn_at], list(reversed(turn_results)))
+                stepwise = norm(("ok", hist[turn_at:] + [_LIB["new_event_dict"]("Listen")]))
+                if norm(whole) != stepwise:
+                    add_viol("turn", "generate_events-differs-from-stepwise-calls",
+                             f"generate_events on the used runtime produced {_brief_res(whole)} for this turn, the "
+                             f"step-by-step calls {[_ev_brief(e) for e in stepwise[1]]}", ahist, len(hist), k)
+                    continue
             if terminal or not strict or n_user >= max_user:
                 continue
             push_user_children(ahist, hist, r, n_user, dev, depth, zeros)
@@ -860,20 +1107,42 @@ def explore(task):
         h2 = hist + steps
         if steps[-1]["type"] == "StartInternalSystemAction":
             counts["action_points"] += 1
-            steps[-1]["is_system_action"] = False  # RuntimeV1_0._compute_next_steps
             for res in W.results:
                 if res == 0 and zeros >= opts["max_zero"]:
                     continue
                 ah2 = ahist + (("done", step[1], res),)
-                q.append((ah2, h2 + W.action_events(h2, res), ref_run(P, ah2, W.tab) if strict else r,
-                          n_user, dev, depth + 1, terminal, zeros + (res == 0), 0))
+                au, arg_u = W.action(W.rt_used, h2, res)
+                af, arg_f = W.action(W.fresh(), h2, res)
+                counts["actions_executed_used_and_fresh"] += 1
+                if norm(au) != norm(af) or arg_u != arg_f:
+                    add_viol("action-dependence", f"earlier-calls-matter:action-execution:{_short(r['to'])}",
+                             f"_process_start_action for the SAME history: used runtime called the action with p={arg_u!r} "
+                             f"and appended {_brief_res(au)}, a fresh runtime called it with p={arg_f!r} and appended "
+                             f"{_brief_res(af)}", ah2, len(h2), k)
+                    continue
+                if au[0] != "ok":
+                    if strict:
+                        add_viol("exception", f"exception:action-execution:{_short(r['to'])}",
+                                 f"_process_start_action raised {au[1]}", ah2, len(h2), k)
+                    continue
+                if strict:
+                    counts["action_arguments_checked"] += 1
+                    if arg_u != r["param"]:
+                        add_viol("action-argument", f"action-argument:{_short(r['to'])}",
+                                 f"`execute {step[1]}(p=$c)` was called with p={arg_u!r}, $c is {r['param']!r}",
+                                 ah2, len(h2), k)
+                        continue
+                q.append((ah2, h2 + au[1], ref_run(P, ah2, W.tab) if strict else r,
+                          n_user, dev, depth + 1, terminal, zeros + (res == 0), 0, turn_at))
         elif step is not None:
             ah2 = ahist + (("bot", step[1]),)
-            q.append((ah2, h2, ref_run(P, ah2, W.tab) if strict else r, n_user, dev, depth + 1, terminal, zeros, k + 1))
+            q.append((ah2, h2, ref_run(P, ah2, W.tab) if strict else r, n_user, dev, depth + 1, terminal, zeros,
+                      k + 1, turn_at))
         else:
             # only a ContextUpdate was decided: the runtime calls the decision function again
-            q.append((ahist, h2, ref_run(P, ahist, W.tab) if strict else r, n_user, dev, depth + 1, terminal, zeros, k + 1))
-    # the first histories once more on the used configs, after every other call was made
+            q.append((ahist, h2, ref_run(P, ahist, W.tab) if strict else r, n_user, dev, depth + 1, terminal, zeros,
+                      k + 1, turn_at))
+    # the first histories once more on the used runtime, after every other call was made
     for ahist, hist, before, k in first_nodes:
         if before is None:
             continue
@@ -889,10 +1158,16 @@ def explore(task):
     counts["reference_states"] = len(refstates)
     for v in viols.values():
         n = v.pop("_trace_len")
-        if v["replay"]["kind"] == "dependence":
-            v["replay"]["earlier_calls_on_used_configs"] = [list(t) for t in W.trace[:n]]
+        if v["replay"]["kind"] in ("dependence", "action-dependence", "turn"):
+            v["replay"]["earlier_calls_on_used_configs"] = [list(t) for t in W.trace[:max(n, 0)] if t is not None]
     return {"idx": idx, "counts": counts, "features": feat_counts, "violations": list(viols.values()),
             "sample": sample, "size": prog_size(P), "grammar": opts["grammar"]}
+
+
+def _brief_res(res):
+    if res[0] != "ok":
+        return f"exception {res[1]}"
+    return str([_ev_brief(e) for e in res[1]])
 
 
 def _strip_private(flows):
@@ -922,7 +1197,7 @@ def _ev_brief(e):
 
 # ------------------------------------------------------------------ tiers
 def plan(tier):
-    """[(grammar, size, [(main, sub)], f2 variant, bounds)] smallest first"""
+    """[(grammar, size, [(main, subflows)], f2 variant, bounds)] smallest first"""
     small = {"max_user": 3, "max_dev": 1, "max_zero": 1}
     big = {"max_user": 4, "max_dev": 2, "max_zero": 2}
     out = []
@@ -930,15 +1205,24 @@ def plan(tier):
         for n in (1, 2, 3):
             out.append(("full", n, programs("full", n, (1, 2)), "simple", small))
             out.append(("full", n, programs("full", n, (1, 2)), "two-turn-set", small))
-        out.append(("nest", 5, programs("nest", 5, ()), "simple", small))
+        for n in (3, 4, 5):
+            out.append(("nsub", n, programs("nsub", n, (1, 2, 3), (1, 2)), "simple", small))
+        for n in (1, 2, 3, 4):
+            out.append(("ctl", n, programs("ctl", n), "simple", small))
+        out.append(("nest", 5, programs("nest", 5), "simple", small))
         out.append(("full", 4, programs("full", 4, (1, 2)), "simple", small))
     else:
         for n in (1, 2, 3):
             out.append(("full", n, programs("full", n, (1, 2)), "simple", big))
             out.append(("full", n, programs("full", n, (1, 2)), "two-turn-set", big))
+        for n in (3, 4, 5, 6):
+            out.append(("nsub", n, programs("nsub", n, (1, 2, 3), (1, 2)), "simple", big))
+        for n in (1, 2, 3, 4, 5):
+            out.append(("ctl", n, programs("ctl", n), "simple", big))
         out.append(("full", 4, programs("full", 4, (1, 2)), "simple", big))
-        out.append(("nest", 5, programs("nest", 5, ()), "simple", big))
-        out.append(("nest", 6, programs("nest", 6, ()), "simple", big))
+        out.append(("nest", 5, programs("nest", 5), "simple", big))
+        out.append(("nest", 6, programs("nest", 6), "simple", big))
+        out.append(("ctl", 6, programs("ctl", 6), "simple", small))
         out.append(("full", 5, programs("full", 5, (1, 2)), "simple", small))
     return out
 
@@ -956,8 +1240,8 @@ def run(rep, tier):
         key = f"{g}:size={n}:f2={f2}"
         totals[key] = len(progs)
         bounds[key] = bnd
-        for main, sub in progs:
-            ts.append((len(ts), main, sub, f2, dict(bnd, max_depth=60, seed=seed, grammar=key)))
+        for main, subs in progs:
+            ts.append((len(ts), main, subs, f2, dict(bnd, max_depth=60, seed=seed, grammar=key)))
     budget = 50 if tier == "quick" else 17 * 60
     deadline = time.time() + budget
     done = {}
@@ -996,8 +1280,7 @@ def run(rep, tier):
     rep.set("violation_classes_found", len(by_sig))
     rep.set("violation_classes_not_in_known_findings", new)
     rep.set("bounds", {"per_group (max user turns / max unexpected turns / max actions returning 0 per history)": bounds,
-                       "action_results": [0, 1], "grammars": {k: [list(map(list, v[0])), list(map(list, v[1])), list(v[2])]
-                                                              for k, v in GRAMMARS.items()}})
+                       "action_results": [0, 1], "grammars": GRAMMARS})
     rep.set("exhaustive", n_done == len(ts))
     if n_done < len(ts):
         full_groups = [k for k in totals if done.get(k, 0) == totals[k]]
@@ -1017,9 +1300,11 @@ def run(rep, tier):
 
 
 # ------------------------------------------------------------------ replay
-def build_history(W, script, k):
+def build_history(W, script, k, on_used=False):
     """the history of node (script, k): all script entries consumed, then k further decision rounds.
-    Decisions are taken from FRESH configs so that building a history never touches the used ones."""
+    Decisions and action events are taken from FRESH runtimes, so building a history never touches the
+    used one - except with on_used=True (repeating the earlier calls of a search): then the used runtime
+    makes the same decision and action calls the search made along this path."""
     hist, pos, waiting, since = [], 0, True, 0
     while True:
         if waiting or hist[-1]["type"] == "StartInternalSystemAction":
@@ -1032,11 +1317,17 @@ def build_history(W, script, k):
                 hist = hist + W.user_events(e[1], not hist)
                 waiting = False
             else:
-                hist[-1]["is_system_action"] = False
-                hist = hist + W.action_events(hist, e[2])
+                if on_used:
+                    W.action(W.rt_used, hist, e[2])
+                res, _ = W.action(W.fresh(), hist, e[2])
+                if res[0] != "ok":
+                    return None
+                hist = hist + res[1]
             continue
         if pos == len(script) and since == k:
             return hist
+        if on_used:
+            W.eval_used(hist)
         res = W.eval_fresh(hist)
         if res[0] != "ok":
             return None
@@ -1050,20 +1341,36 @@ def build_history(W, script, k):
 def replay(rp):
     lib()
     P = rp["program"]
-    W = World(P, tuple(rp.get("order") or ("f1", "s1", "f2")))
+    W = World(P, tuple(rp.get("order") or ("f1", "s1", "s2", "f2")))
     print(W.src)
     script = [tuple(e) for e in rp["script"]]
-    if rp.get("kind") == "dependence":
+    kind = rp.get("kind")
+    if kind in ("dependence", "action-dependence", "turn"):
         earlier = rp.get("earlier_calls_on_used_configs") or []
-        print(f"making the {len(earlier)} earlier calls of the search on the used flow configs ...")
+        print(f"repeating the {len(earlier)} earlier decision calls of the search (and the action executions on "
+              f"their paths) on the used runtime ...")
+        done = set()
         for sc, k in earlier:
-            h = build_history(W, [tuple(e) for e in sc], k)
+            key = (repr(sc), k)
+            sc = [tuple(e) for e in sc]
+            h = build_history(W, sc, k, on_used=repr(sc) not in done)
+            done.add(repr(sc))
             if h is not None:
                 W.eval_used(h)
-        h = build_history(W, script, rp.get("k", 0))
-        print("history:", [_ev_brief(e) for e in h])
-        print("  decided on the used configs :", _show_res(norm(W.eval_used(h))))
-        print("  decided on a fresh copy     :", _show_res(norm(W.eval_fresh(h))))
+        if kind == "action-dependence":
+            h = build_history(W, script[:-1], rp.get("k", 0))
+            steps = W.eval_fresh(h)[1]
+            h = h + steps
+            print("history:", [_ev_brief(e) for e in h])
+            au, arg_u = W.action(W.rt_used, h, script[-1][2])
+            af, arg_f = W.action(W.fresh(), h, script[-1][2])
+            print(f"  _process_start_action on the used runtime : action called with p={arg_u!r}, appended {_brief_res(au)}")
+            print(f"  _process_start_action on a fresh runtime  : action called with p={arg_f!r}, appended {_brief_res(af)}")
+        else:
+            h = build_history(W, script, rp.get("k", 0))
+            print("history:", [_ev_brief(e) for e in h])
+            print("  decided on the used runtime  :", _show_res(norm(W.eval_used(h))))
+            print("  decided on a fresh runtime   :", _show_res(norm(W.eval_fresh(h))))
         print("recorded:", rp.get("detail"))
         return 0
     ahist, hist = (), []
@@ -1087,7 +1394,7 @@ def replay(rp):
             exp = "(nothing demanded: a flow that was left earlier is involved)"
         print(f"  history of {len(hist)} events, last {_ev_brief(hist[-1])}")
         print(f"      expected: {exp}")
-        print(f"      decided : {_show_res(norm(ru))}" + ("" if norm(ru) == norm(rf) else f"   BUT on fresh configs: {_show_res(norm(rf))}"))
+        print(f"      decided : {_show_res(norm(ru))}" + ("" if norm(ru) == norm(rf) else f"   BUT on a fresh runtime: {_show_res(norm(rf))}"))
         if ru[0] != "ok":
             break
         steps = ru[1]
@@ -1107,10 +1414,13 @@ def replay(rp):
         if steps[-1]["type"] == "StartInternalSystemAction":
             res = script[pos][2] if pos < len(script) and script[pos][0] == "done" else 1
             pos += 1
-            steps[-1]["is_system_action"] = False
-            hist = hist + W.action_events(hist, res)
+            au, arg = W.action(W.rt_used, hist, res)
+            print(f"  action {step[1]} called with p={arg!r} (expected p={r['param']!r}), returns {res}; "
+                  f"runtime appends {_brief_res(au)}")
+            if au[0] != "ok":
+                break
+            hist = hist + au[1]
             ahist = ahist + (("done", step[1], res),)
-            print(f"  action {step[1]} returns {res}")
         elif step is not None:
             ahist = ahist + (("bot", step[1]),)
     print("recorded:", rp.get("detail"))
